@@ -113,7 +113,7 @@ def jobs(tier):
             out.append(Job("O1-update-two-frames", o1_update, dict(role=role, lvl=0 if role == "master" else 2, n=8, frames=2, first="consumed"),
                            cost=2000, shards=16))
     for kind in ("none", "neg", "low", "high"):
-        out.append(Job("O2-is_address_valid", o2_valid, dict(kind=kind), cost=5))
+        out.append(Job("O2-is_address_valid", o2_valid, dict(kind=kind), cost=5, crosscheck=True))
     return out
 
 
